@@ -5,6 +5,7 @@ import SqlProofs.GroupNonEmpty
 import SqlProofs.AccessorSpec
 import SqlProofs.Bookkeeping
 import SqlProofs.BookkeepingAbsScript
+import SqlProofs.BookkeepingGroup
 /-!
 # C03 — grouping is purely structural and yields a well-formed token tree
 
@@ -73,12 +74,20 @@ well-formed heap (`abstraction_exists_unique`).  One `group_tokens` call on the 
 receiver, leaves every object outside the path to the receiver unchanged, and changes the ancestors exactly by that replacement
 (`group_tokens_call_refines_pure`); a raising call raises the same error purely.  For ANY script of calls on the Statement the splitter built, the
 final heap is well-formed AND its abstraction is the pure tree obtained by running the same calls at the corresponding tree paths
-(`statement_history_refines_pure`).  Not proved: that each pure grouping pass IS such a script (needs a set-ttype operation for `group_operator`'s
-re-typing and one lemma per pass; tied by S-TREE + S-HEAP + the confinement check instead). -/
+(`statement_history_refines_pure`).  And every pure grouping pass IS such a script (SqlProofs/PureScript.lean: each `groupTokens` call a pass makes is one script operation, and
+`group_operator`'s re-typing of `*` is the one `setType` operation; all 25 pass names covered), hence
+`grouped_statement_is_a_wellformed_object_graph`: for every token list, the tree the pure model computes is the (unique) abstraction of the heap
+reached from the splitter's Statement by a history of `group_tokens` / set-ttype operations all of which return — a well-formed object graph
+(parents, occurs-once, acyclic, non-empty groups, cached value = text, every group reachable from the Statement).  The script's order is the
+pure model's (children first), not Python's interleaving; the theorem is existential in the script. -/
 theorem abstraction_exists_unique : type_of% @BK.WF.abs_unique := @BK.WF.abs_unique
 theorem group_tokens_call_refines_pure : type_of% @BK.groupTokens_abs := @BK.groupTokens_abs
 theorem group_tokens_error_refines_pure : type_of% @BK.groupTokens_abs_error := @BK.groupTokens_abs_error
 theorem history_refines_pure : type_of% @BK.runOps_abs := @BK.runOps_abs
 theorem statement_history_refines_pure : type_of% @BK.statement_history_abs := @BK.statement_history_abs
+theorem typed_history_refines_pure : type_of% @BK.runHOps_abs := @BK.runHOps_abs
+theorem every_pass_is_a_script : type_of% @Sql.passByName_scr := @Sql.passByName_scr
+theorem group_is_a_script : type_of% @Sql.group_scr := @Sql.group_scr
+theorem grouped_statement_is_a_wellformed_object_graph : type_of% @BK.groupStatement_is_heap_history := @BK.groupStatement_is_heap_history
 
 end Sql.C03
